@@ -12,6 +12,7 @@ import (
 	"sort"
 	"strconv"
 	"strings"
+	"sync"
 	"testing"
 	"testing/synctest"
 	"time"
@@ -24,6 +25,7 @@ import (
 	"github.com/mgtv-tech/redis-GunYu/verifshim/redisd"
 	"github.com/mgtv-tech/redis-GunYu/verifshim/sourced"
 	"github.com/mgtv-tech/redis-GunYu/verifshim/vnet"
+	"github.com/mgtv-tech/redis-GunYu/verifshim/vsel"
 )
 
 // ---------------------------------------------------------------------------
@@ -70,6 +72,10 @@ type c06Scenario struct {
 	Prep      bool     `json:"prep,omitempty"`    // the source prepares a snapshot for 4 s (LF heartbeats) before +FULLRESYNC and before $<len>
 	NoResume  bool     `json:"no_resume,omitempty"` // output.replay.resumeFromBreakPoint=false: the position lives in the process only (ticker-mode output, CanTransaction=false)
 	Burst     string   `json:"burst,omitempty"`    // the master takes 2 writes during every snapshot; payload + those commands arrive as one write ("one") or split "inpay" | "atend" | "incmd"
+	MaxSize   int64    `json:"max_size,omitempty"` // cache MaxSize (disk: what the 30 s collector trims to; memory: hard limit, appends evict the head); 0 = unlimited
+	Hold      string   `json:"hold,omitempty"`     // step of a connection attempt behind which the input goroutine is held: pos | psync | chanid | outid | writer | reader
+	HoldFor   string   `json:"hold_for,omitempty"` // burst: until what the source sent behind the PSYNC reply has reached the cache writer; tick: until the disk collector's next 30 s tick has fired
+	HoldAt    int      `json:"hold_at,omitempty"`  // the n-th time that step is reached in the history (1 = first connection attempt)
 	Events    []string `json:"events,omitempty"`
 }
 
@@ -130,6 +136,10 @@ type c06Env struct {
 	prepErr   error
 	cut       *c06Cut // armed interruption of the next +FULLRESYNC attempt
 	cutMissed bool    // the interruption point does not exist in this history
+	bootAt    time.Time      // creation of the current channel object (phase of the disk collector's ticker)
+	holdSeen  map[string]int // connection steps reached so far, by class
+	holding   bool           // the input goroutine is being held at a step right now
+	held      int            // holds carried out
 }
 
 // c06Cut interrupts a connection attempt between the +FULLRESYNC reply and the first
@@ -200,9 +210,9 @@ func c06GlobalConfig(crc bool, resume bool) error {
 }
 
 func (e *c06Env) syncerConfig() SyncerConfig {
-	cc := config.ChannelConfig{Type: config.ChannelTypeStorer, Storer: &config.StorerConfig{DirPath: e.dir, MaxSize: 0, LogSize: e.scn.LogSize}}
+	cc := config.ChannelConfig{Type: config.ChannelTypeStorer, Storer: &config.StorerConfig{DirPath: e.dir, MaxSize: e.scn.MaxSize, LogSize: e.scn.LogSize}}
 	if e.scn.Chan == "mem" {
-		cc = config.ChannelConfig{Type: config.ChannelTypeMemory, Memory: &config.MemoryConfig{MaxSize: 0, LogSize: e.scn.LogSize}}
+		cc = config.ChannelConfig{Type: config.ChannelTypeMemory, Memory: &config.MemoryConfig{MaxSize: e.scn.MaxSize, LogSize: e.scn.LogSize}}
 	}
 	return SyncerConfig{Id: 1, Input: c06RedisCfg(c06SrcAddr), Output: c06RedisCfg(c06TgtAddr), Channel: cc, CanTransaction: !e.scn.NoResume}
 }
@@ -467,6 +477,7 @@ func c06Stored(tgt *redisd.Server) map[string]int64 {
 // UpdateCheckpoint, NewRedisOutput; then NewRedisInput, SetOutput, SetChannel, Run).
 func (e *c06Env) boot() {
 	e.boots++
+	e.bootAt = time.Now()
 	sy := NewSyncer(e.syncerConfig()).(*syncer)
 	e.ch = sy.channel
 	if e.prefill != nil {
@@ -529,6 +540,16 @@ func (e *c06Env) settle(d time.Duration) {
 	for round := 0; round < 4; round++ {
 		time.Sleep(d)
 		synctest.Wait()
+		if e.holding {
+			// a connection attempt is being held at one of its steps (up to one collector
+			// period): the settling period starts when it goes on
+			for i := 0; i < 40 && e.holding; i++ {
+				time.Sleep(time.Second)
+				synctest.Wait()
+			}
+			time.Sleep(d)
+			synctest.Wait()
+		}
 		if e.tool != nil {
 			e.tool.poll()
 			if !e.tool.ended {
@@ -612,9 +633,43 @@ func (e *c06Env) apply(ev string) error {
 		return err
 	}
 	cur := e.src.Current()
+	if strings.HasPrefix(ev, "lag+") {
+		// the target stops processing requests (they pile up in its receive buffer), the
+		// master takes a burst of writes larger than a small cache, then the inner event
+		// happens, then the target works off what it has received and answers again
+		e.tgt.PlanRef().Park = true
+		e.src.Append(c06BurstCmds)
+		time.Sleep(300 * time.Millisecond)
+		synctest.Wait()
+		e.events--
+		if err := e.apply(ev[4:]); err != nil {
+			return err
+		}
+		time.Sleep(300 * time.Millisecond)
+		synctest.Wait()
+		e.tgt.Unpark()
+		c := e.src.Current()
+		e.mark("event %s -> source h%d len %d", ev, c.Tag, c.NumCmds())
+		return nil
+	}
+	if len(ev) > 1 && ev[0] == 'b' && (ev == "bdrop" || ev == "bfo" || ev == "brs") {
+		// a burst of writes larger than a small cache reaches the cache, and the inner event
+		// happens before the output's batch timer has forwarded any of it to the target
+		e.src.Append(c06BurstCmds)
+		synctest.Wait()
+		e.events--
+		return e.apply(ev[1:])
+	}
 	switch ev {
 	case "app":
 		e.src.Append(2)
+	case "app6":
+		// a burst larger than a small cache while the connection is up
+		e.src.Append(c06BurstCmds)
+	case "tick":
+		// virtual time passes until the disk collector's 30 s ticker has fired once more
+		time.Sleep(c06UntilTick(e.bootAt))
+		synctest.Wait()
 	case "drop":
 		e.src.DropConns(false)
 	case "rst":
@@ -696,11 +751,116 @@ func c06Name(id string) string {
 }
 
 // ---------------------------------------------------------------------------
+// Small caches and collector activity: steps of a connection attempt at which the input
+// goroutine can be held while the rest of the tool (the new connection's cache writer,
+// the disk collector) goes on.
+//
+// syncer/input.go is built with the rewriter's yield-calls transform: a point behind the
+// statements that call getOutputStartPoint, pSync, (channel|output).SetRunId / ResetRunId,
+// fetchInput and readChannel. A point is named "input.go:<line>"; the class of a point is
+// read off the text of that source line in the tree under test.
+
+const (
+	c06BurstCmds   = 6                // commands of a burst (192 bytes: more than every small MaxSize)
+	c06GcPeriod    = 30 * time.Second // pkg/store gcLogJob ticker
+	c06HoldBurst   = 250*time.Millisecond + 250*time.Microsecond
+	c06TickMargin  = time.Millisecond + 250*time.Microsecond
+	c06InputSource = "syncer/input.go"
+)
+
+var c06HoldSites = []string{"pos", "psync", "chanid", "outid", "writer", "reader"}
+
+// c06UntilTick: virtual time from now until just behind the next tick of a 30 s ticker
+// created at t0.
+func c06UntilTick(t0 time.Time) time.Duration {
+	el := time.Since(t0)
+	return c06GcPeriod - el%c06GcPeriod + c06TickMargin
+}
+
+var (
+	c06SiteOnce  sync.Once
+	c06SiteLines []string
+)
+
+// c06SiteClass maps a yield point to the step of the connection attempt it follows.
+func c06SiteClass(site string) string {
+	c06SiteOnce.Do(func() {
+		root := os.Getenv("VERIF_REPO")
+		if root == "" {
+			root = "/repo"
+		}
+		b, err := os.ReadFile(filepath.Join(root, c06InputSource))
+		if err == nil {
+			c06SiteLines = strings.Split(string(b), "\n")
+		}
+	})
+	if !strings.HasPrefix(site, "input.go:") {
+		return ""
+	}
+	n, err := strconv.Atoi(site[len("input.go:"):])
+	if err != nil || n < 1 || n > len(c06SiteLines) {
+		return ""
+	}
+	line := c06SiteLines[n-1]
+	switch {
+	case strings.Contains(line, "getOutputStartPoint("):
+		return "pos" // the target's stored position has been read; the cache has not been looked at yet
+	case strings.Contains(line, ".pSync("):
+		return "psync" // the PSYNC reply has arrived (the cache was validated before the request)
+	case strings.Contains(line, "channel.SetRunId("):
+		return "chanid"
+	case strings.Contains(line, "output.SetRunId("), strings.Contains(line, ".ResetRunId("):
+		return "outid"
+	case strings.Contains(line, ".fetchInput("):
+		return "writer" // the connection's cache writer has been started, the reader does not exist yet
+	case strings.Contains(line, ".readChannel("):
+		return "reader" // the reader exists (and pins its segment); nothing has been handed to the output yet
+	}
+	return ""
+}
+
+// c06SitesPresent lists the classes for which the tree under test has a point.
+func c06SitesPresent() map[string]bool {
+	c06SiteClass("input.go:1")
+	out := map[string]bool{}
+	for i := range c06SiteLines {
+		if !strings.Contains(c06SiteLines[i], "func ") {
+			if c := c06SiteClass(fmt.Sprintf("input.go:%d", i+1)); c != "" {
+				out[c] = true
+			}
+		}
+	}
+	return out
+}
+
+// yield is the preemption procedure: called by the tool's goroutine that reached a point.
+func (e *c06Env) yield(site string) {
+	cls := c06SiteClass(site)
+	if cls == "" {
+		return
+	}
+	e.holdSeen[cls]++
+	if cls != e.scn.Hold || e.holdSeen[cls] != e.scn.HoldAt {
+		return
+	}
+	d := c06HoldBurst
+	if e.scn.HoldFor == "tick" {
+		d = c06UntilTick(e.bootAt)
+	}
+	e.holding = true
+	e.held++
+	e.mark("input goroutine held behind step %s for %v", cls, d)
+	time.Sleep(d)
+	e.holding = false
+	e.mark("input goroutine goes on")
+}
+
+// ---------------------------------------------------------------------------
 // One execution.
 
 // c06Stats summarises one execution for the evidence counters.
 type c06Stats struct {
-	conns, cont, full, refusedPartial, cachedSnap, fullSnap, starts, exits int
+	conns, cont, full, refusedPartial, cachedSnap, fullSnap, starts, exits, held, small, empty int
 }
 
 var c06Last c06Stats
@@ -730,8 +890,12 @@ func c06Exec(t *testing.T, scn c06Scenario, scratch string, n int) mc.Result {
 	msg := bubble(t, func() {
 		vnet.Reset()
 		rand.Seed(1) // the tool's retry jitter (util.jitterUp) draws from the global source
-		env := &c06Env{t: t, scn: scn, dir: dir, t0: time.Now()}
+		env := &c06Env{t: t, scn: scn, dir: dir, t0: time.Now(), holdSeen: map[string]int{}}
 		env.tgt = redisd.New(c06TgtAddr)
+		if scn.Hold != "" {
+			vsel.SetYielder(env.yield)
+			defer vsel.SetYielder(nil)
+		}
 		// Every reply of the target arrives one VIRTUAL millisecond after the request.
 		// The virtual clock only moves when every goroutine of the bubble is durably
 		// blocked, and a goroutine inside a file-system call is not: so every round trip
@@ -1020,6 +1184,9 @@ func (rec *c06Record) describe(extra map[string]interface{}) map[string]interfac
 func (rec *c06Record) judge() mc.Result {
 	e := rec.env
 	cls := rec.scn.Chan
+	if rec.scn.MaxSize > 0 {
+		cls += ":small-cache" // histories in which the cache collects its head
+	}
 	for _, ev := range rec.scn.Events {
 		if strings.HasPrefix(ev, "new:") {
 			cls += ":after-cut-fullresync" // histories with an interrupted +FULLRESYNC attempt
@@ -1203,7 +1370,10 @@ func (rec *c06Record) judge() mc.Result {
 		}
 		obsParts = append(obsParts, fmt.Sprintf("%s|%s|%s|%d|%d|snap=%d|from=%d|n=%d", shape, c06NameArgs(p.Raw), c06Name(p.ReplyID), p.From, p.HistCmds, len(snap), start, len(stream)))
 	}
-	c06Last = c06Stats{starts: e.boots, exits: len(e.exits)}
+	c06Last = c06Stats{starts: e.boots, exits: len(e.exits), held: e.held}
+	if rec.scn.MaxSize > 0 {
+		c06Last.small = 1
+	}
 	for _, p := range rec.psyncs {
 		c06Last.conns++
 		if p.Full {
@@ -1221,6 +1391,9 @@ func (rec *c06Record) judge() mc.Result {
 		}
 		if strings.Contains(part, ":full|") && !strings.Contains(part, "|snap=0|") {
 			c06Last.fullSnap++
+		}
+		if rec.scn.MaxSize > 0 && strings.HasSuffix(part, "|snap=0|from=-1|n=0") {
+			c06Last.empty++ // a connection that delivered nothing (the round failed) and was repaired by the next one
 		}
 	}
 	cur := rec.cur
@@ -1639,6 +1812,7 @@ func c06Histories(tier string) []c06Scenario {
 			}
 		}
 	}
+	fams = append(fams, c06SmallCacheFamilies(tier)...)
 	var out []c06Scenario
 	// breadth-first: all histories of length d before any of length d+1
 	for d := 0; d <= 3; d++ {
@@ -1654,6 +1828,115 @@ func c06Histories(tier string) []c06Scenario {
 		}
 	}
 	return out
+}
+
+// c06SmallCacheFamilies: caches that are smaller than what passes through them. Segment
+// size one or two commands, MaxSize two to eight commands; the target's stored position
+// lags inside the cached range at the start, the master is several commands ahead of the
+// cache (the first +CONTINUE is followed by a burst larger than MaxSize). Events: the base
+// events, a burst larger than the cache on the live connection (app6), the same burst with
+// the connection lost / a fail-over / a process restart before the output's batch timer has
+// forwarded any of it (bdrop, bfo, brs: an in-process reconnection with the target behind
+// the cache's right edge and possibly behind its left edge), the burst and the connection
+// loss while the target does not process requests (lag+drop), and for the disk cache a
+// tick of its 30 s collector at a quiescent point (tick). Every history is also run with
+// the input goroutine held behind one step of its n-th connection attempt - until the
+// bytes behind the PSYNC reply have reached the new cache writer (burst), or until the
+// collector's next tick has fired (tick, disk only) - so that the cache collects its head
+// at every point of the (re)connection procedure: before the cache is validated, between
+// the PSYNC reply and the creation of the reader that feeds the target, and behind it.
+func c06SmallCacheFamilies(tier string) []c06Family {
+	thorough := tier == "thorough"
+	logSizes := []int64{32, 64}
+	maxSizes := []int64{64, 128}
+	srcs := []c06SrcSpec{{"same", 0, 12, 0}}
+	cps := []c06CpSpec{{"A", 4}, {"A", 6}}
+	caches := []c06CacheSpec{{"A", false, 3, 7}, {"A", true, 3, 7}}
+	alpha := []string{"app", "app6", "drop", "fo", "rs", "bdrop", "bfo", "brs", "lag+drop"}
+	ats := []int{1, 2}
+	if thorough {
+		logSizes = append(logSizes, 100)
+		maxSizes = append(maxSizes, 256)
+		srcs = append(srcs, c06SrcSpec{"fo", 7, 12, 0})
+		cps = append(cps, c06CpSpec{"A", 3})
+	}
+	reconnects := func(sq []string) int {
+		n := 0
+		for _, ev := range sq {
+			switch ev {
+			case "app", "app6", "tick", "trim":
+			default:
+				n++
+			}
+		}
+		return n
+	}
+	type hold struct{ site, what string }
+	var fams []c06Family
+	for _, chn := range []string{"disk", "mem"} {
+		al := alpha
+		holds := []hold{{"writer", "burst"}, {"reader", "burst"}}
+		if chn == "disk" {
+			al = append(append([]string(nil), alpha...), "tick")
+			for _, site := range c06HoldSites {
+				holds = append(holds, hold{site, "tick"})
+			}
+		}
+		seqs1 := c06Sequences(al, 1)
+		seqs2 := c06Sequences(al, 2)
+		type combo struct {
+			s  c06SrcSpec
+			cp c06CpSpec
+			ca c06CacheSpec
+		}
+		var combos []combo
+		for _, s := range srcs {
+			for _, cp := range cps {
+				for _, ca := range caches {
+					if c06Consistent(s, cp, ca) {
+						combos = append(combos, combo{s, cp, ca})
+					}
+				}
+			}
+		}
+		// a first connection that takes a snapshot larger than the cache (nothing stored, nothing cached)
+		combos = append(combos, combo{c06SrcSpec{"new", 0, 8, 0}, c06CpSpec{"", 0}, c06CacheSpec{"", false, 0, 0}})
+		for _, ls := range logSizes {
+			for _, ms := range maxSizes {
+				if ls > ms {
+					continue // a segment larger than the whole cache
+				}
+				for _, cb := range combos {
+					s, cp, ca := cb.s, cb.cp, cb.ca
+					tr := c06Scenario{Chan: chn, LogSize: ls, MaxSize: ms, Src: s.Kind, ForkAt: s.ForkAt, CurLen: s.CurLen, Trim: s.Trim,
+						CpID: cp.ID, CpAt: cp.At, CacheID: ca.ID, CacheSnap: ca.Snap, CacheL: ca.L, CacheR: ca.R}
+					deep := thorough && ls == 32 && ms == 128 && s.Kind == "same"
+					seqs, hseqs, hats := seqs1, seqs1, ats
+					if deep {
+						seqs = seqs2
+					}
+					if s.Kind == "new" && !thorough {
+						seqs, hseqs, hats = [][]string{nil, {"drop"}, {"bdrop"}}, [][]string{nil}, []int{1}
+					}
+					fams = append(fams, c06Family{tr, seqs})
+					for _, h := range holds {
+						for _, at := range hats {
+							var sel [][]string
+							for _, sq := range hseqs {
+								if reconnects(sq)+1 >= at {
+									sel = append(sel, sq)
+								}
+							}
+							v := tr
+							v.Hold, v.HoldFor, v.HoldAt = h.site, h.what, at
+							fams = append(fams, c06Family{v, sel})
+						}
+					}
+				}
+			}
+		}
+	}
+	return fams
 }
 
 func c06Prep(tr c06Scenario) c06Scenario {
@@ -1708,11 +1991,21 @@ func runC06(t *testing.T, rep *mc.Reporter) {
 			}
 		}
 		rep.Note(fmt.Sprintf("%d histories enumerated in tier %s (%d initial triples, %d of them seed triples with the longer event sequences)", len(all), tier, len(trs), seeds))
+		present := c06SitesPresent()
+		for _, site := range c06HoldSites {
+			if !present[site] {
+				rep.Note("the tree under test has no connection step of class " + site + " in " + c06InputSource + ": histories that hold the input goroutine there run without a hold")
+			}
+		}
 	}
 	done := 0
 	seen := map[string]int{}
+	only := os.Getenv("VERIF_C06_ONLY") // development aid: "small" = the small-cache families only
 	for idx, scn := range all {
 		if idx%nshards != shard {
+			continue
+		}
+		if only == "small" && scn.MaxSize == 0 {
 			continue
 		}
 		if budget.Expired() {
@@ -1775,6 +2068,9 @@ func runC06(t *testing.T, rep *mc.Reporter) {
 			rep.Count("served_snapshot_replays", int64(st.fullSnap))
 			rep.Count("tool_starts", int64(st.starts))
 			rep.Count("run_loop_exits", int64(st.exits))
+			rep.Count("small_cache_histories", int64(st.small))
+			rep.Count("connection_steps_held", int64(st.held))
+			rep.Count("small_cache_connections_without_delivery", int64(st.empty))
 		}
 		rep.Count("states", 1)
 		rep.Count("transitions", int64(len(scn.Events)+2))
